@@ -275,6 +275,11 @@ fn explore_workload(w: &Workload, bound: Option<usize>, cap: u64, st: &mut Stats
     let mut max_points = 0;
     let mut visit = |x: &Execution<Obs>| {
         if let Some(d) = &x.divergence {
+            if x.degraded || degraded > 0 {
+                // the watchdog let two threads run at once earlier: replayed prefixes may no longer fit
+                degraded += 1;
+                return;
+            }
             machinery_error(&format!("workload {}: schedule replay diverged: {}", w.name, d));
         }
         interleavings.insert(x.events.clone());
